@@ -690,12 +690,15 @@ def rule_touched(ctx, rule='C03.TOUCHED'):
     # spent outputs
     sp = calls_to(ctx, bak, bout, spend.key)
     a_out = [c for c in adds if q.in_body(c, bout.body)]
-    ok = len(sp) == 1 and len(a_out) == 1 and isinstance(q.stmt(sp[0]), ast.Assign)
+    ok = len(sp) == 1 and len(a_out) == 1
     wit = None
     if ok:
-        rv = norm(q.stmt(sp[0]).targets[0])
         arg = a_out[0].args[0]
-        ok = isinstance(arg, ast.Subscript) and norm(arg.value) == rv
+        if isinstance(q.stmt(sp[0]), ast.Assign) and q.stmt(sp[0]).value is sp[0]:
+            rv = norm(q.stmt(sp[0]).targets[0])
+            ok = isinstance(arg, ast.Subscript) and norm(arg.value) == rv
+        else:       # the removed row is sliced where it is returned: touched.add(spend_utxo(...)[:-13])
+            ok = isinstance(arg, ast.Subscript) and arg.value is sp[0]
         ok2, wit = pr.control_equivalent_in_loop(cfg, bout, [cfg.node(q.stmt(sp[0]))], [cfg.node(q.stmt(a_out[0]))])
         ok = ok and ok2
     ctx.check(ok, rule, ctx.key(bak, bout, 'spent outputs touched'),
